@@ -65,7 +65,7 @@ def harnesses_for(f, fn):
         hit = lambda fs: any((pkgpath + '.' + fn) in x or (pkgpath + '.' + fn.split(')')[0] + '[') in x and x.endswith('.' + fn.split(').')[1]) for x in fs)
     else:
         hit = lambda fs: any(x == pkgpath + '.' + fn or x.startswith(pkgpath + '.' + fn + '$') or x.startswith(pkgpath + '.' + fn + '[') for x in fs)
-    return sorted([h for h in HF if hit(h['funcs'])], key=lambda h: h['wall'])
+    return sorted([h for h in HF if hit(h['funcs'])], key=lambda h: h['wall'])[:int(os.environ.get('SWEEP_MAXH', '1000'))]
 
 def detect(args):
     wt, f, i, line, desc, fn = args
@@ -101,6 +101,8 @@ def main():
         for l in o.strip().split('\n'):
             if not l: continue
             i, line, desc, fn = l.split('\t')
+            if os.environ.get('SWEEP_SKIP_SWAP') and desc.startswith('swap with next'): continue
+            if os.environ.get('SWEEP_FUNCS') and not re.search(os.environ['SWEEP_FUNCS'], fn): continue
             jobs.append((f, int(i), int(line), desc, fn))
     n1 = int(os.environ.get('SWEEP_JOBS1', '6')); n2 = int(os.environ.get('SWEEP_JOBS2', '3'))
     wts = [worktree(f'a{k}') for k in range(n1)]
